@@ -27,10 +27,10 @@ type ReplayCtx struct {
 }
 
 type ReplayVar struct {
-	Name    string
-	T       types.Type
-	Term    string // value term (pointee term for pointer parameters)
-	NilTerm string // pointer parameters: Bool term "is nil" ("" = not a pointer parameter)
+	Name     string
+	T        types.Type
+	Term     string // value term (pointee term for pointer parameters)
+	NilTerm  string // pointer parameters: Bool term "is nil" ("" = not a pointer parameter)
 	PostTerm string // pointer parameters: pointee after the call (predicted)
 }
 
@@ -39,18 +39,18 @@ type node struct {
 	kind     string // bool int string struct opt slice map any err unsupported
 	t        types.Type
 	term     string
-	children []*node // struct fields / opt value / slice elems / any payloads
-	keys     []string // map: key constants
-	vals     []*node  // map: values per key
+	children []*node           // struct fields / opt value / slice elems / any payloads
+	keys     []string          // map: key constants
+	vals     []*node           // map: values per key
 	extra    map[string]string // named auxiliary terms (len, nil, testers)
 }
 
 type shaper struct {
-	vc      *VC
-	asserts []string // finiteness constraints
-	decls   []string
-	terms   []string // terms to get-value
-	n       int
+	vc          *VC
+	asserts     []string // finiteness constraints
+	decls       []string
+	terms       []string // terms to get-value
+	n           int
 	unsupported []string
 }
 
@@ -215,7 +215,7 @@ func parseValues(out string) ([]string, error) {
 	pos = 1
 	var vals []string
 	for pos < len(toks) && toks[pos] == "(" {
-		pos++ // open pair
+		pos++                              // open pair
 		if _, err := parse(); err != nil { // term
 			return nil, err
 		}
@@ -820,7 +820,6 @@ func runReplayTest(repoDir, pkg, test, scratch string) (string, bool) {
 	}
 	return out, err != nil
 }
-
 
 // replayRegexLemma replays the counterexample of a language lemma: the solver's witness string is
 // run through the real compiled regular expression; the violation is confirmed when the real verdict
